@@ -83,6 +83,22 @@ pub fn rewrite_families() -> Vec<Raw> {
         raw("push:agg:keynull", "SELECT a, n FROM (SELECT a, count(*) AS n FROM t GROUP BY a) s WHERE a IS NULL"),
         raw("push:agg:having", "SELECT a, sum(b) AS s FROM t GROUP BY a HAVING a = 1 OR sum(b) > 1"),
         raw("push:agg:global", "SELECT n FROM (SELECT count(*) AS n FROM t) s WHERE n = 0"),
+        // ... and above an aggregate with several grouping sets: a filter on a grouping column must not be pushed
+        // below the aggregate unless the column is in every grouping set
+        raw("push:rollup:having-key1", "SELECT a, b, count(*) AS n FROM t GROUP BY ROLLUP (a, b) HAVING a = 1"),
+        raw("push:rollup:having-key2", "SELECT a, b, count(*) AS n FROM t GROUP BY ROLLUP (a, b) HAVING b = 1"),
+        raw("push:rollup:having-null", "SELECT a, b, sum(b) AS s FROM t GROUP BY ROLLUP (a, b) HAVING b IS NULL"),
+        raw("push:rollup:outer", "SELECT a, b, n FROM (SELECT a, b, count(*) AS n FROM t GROUP BY ROLLUP (a, b)) s WHERE a = 1 AND n > 0"),
+        raw("push:cube:outer-key2", "SELECT a, b, n FROM (SELECT a, b, count(*) AS n FROM t GROUP BY CUBE (a, b)) s WHERE b = 1"),
+        raw("push:cube:having-or", "SELECT a, b, count(*) AS n FROM t GROUP BY CUBE (a, b) HAVING a = 1 OR b = 3"),
+        raw("push:cube:grouping", "SELECT a, b, grouping(a) AS ga, count(*) AS n FROM t GROUP BY CUBE (a, b) HAVING a IS NOT NULL"),
+        raw("push:rollup:text-key", "SELECT c, a, count(*) AS n FROM t GROUP BY ROLLUP (c, a) HAVING c = 'x'"),
+        raw("push:agg:2keys-having1", "SELECT a, b, count(*) AS n FROM t GROUP BY a, b HAVING b = 1"),
+        raw("push:agg:expr-key", "SELECT x, n FROM (SELECT a + 1 AS x, count(*) AS n FROM t GROUP BY a + 1) s WHERE x = 2"),
+        raw("push:agg:distinct-agg", "SELECT a, n FROM (SELECT a, count(DISTINCT b) AS n FROM t GROUP BY a) s WHERE a = 1 OR n = 2"),
+        raw("push:join-agg", "SELECT s.a, s.n, u.d FROM (SELECT a, count(*) AS n FROM t GROUP BY a) s JOIN u ON s.a = u.a WHERE s.a = 1 AND u.d = 3"),
+        raw("push:leftjoin-agg", "SELECT u.a, s.n FROM u LEFT JOIN (SELECT a, count(*) AS n FROM t GROUP BY a) s ON s.a = u.a WHERE s.n IS NULL"),
+        raw("push:window-free:unionagg", "SELECT a, n FROM (SELECT a, count(*) AS n FROM t GROUP BY a UNION ALL SELECT a, 0 FROM u) s WHERE a = 1"),
         raw("push:proj", "SELECT x, b FROM (SELECT a + 1 AS x, b FROM t) s WHERE x = 2"),
         raw("push:proj:case", "SELECT x FROM (SELECT CASE WHEN a IS NULL THEN 0 ELSE a END AS x FROM t) s WHERE x = 0"),
         raw("push:distinct", "SELECT a FROM (SELECT DISTINCT a FROM t) s WHERE a = 1"),
